@@ -4,15 +4,13 @@ CONSTANTS
   MaxSect = 1
   MaxVer = 4
   DropBudget = 1
-  DupBudget = 1
+  DupBudget = 0
   Filter = TRUE
   ValueEq = TRUE
   SoloTries = 2
   SplitPC = FALSE
   CommitRetry = TRUE
-INIT Init
-NEXT Next
-VIEW view
-INVARIANTS OneWinnerPerVersion SameValuePerVersion StaleReadAborts NoAssertFails Released SoloProgress
-PROPERTIES VersionsMonotone
+INIT RInit
+NEXT RNext
+INVARIANTS SoloProgress NotFollowed
 CHECK_DEADLOCK FALSE
